@@ -25,24 +25,26 @@ theorem parseString_str (b : List SItem) (hb : ∀ i ∈ b, i.OK) (rest : List C
 
 /-! ### comments -/
 
-theorem doxyFlag_marker (empty : Bool) (m : Marker) (x : List Char)
-    (h : match m with
-         | .none => x.head? ≠ some '!'
-         | .fwd => x.head? ≠ some '<'
-         | .back => True) :
+/-- the text after a doxygen marker does not extend the marker -/
+def MarkerHead : Marker → List Char → Prop
+  | .none, x => x.head? ≠ some '!'
+  | .fwd, x => x.head? ≠ some '<'
+  | .back, _ => True
+
+theorem doxyFlag_marker (empty : Bool) (m : Marker) (x : List Char) (h : MarkerHead m x) :
     doxyFlag empty (m.text ++ x) = (m.flag empty, m.text.length, x) := by
   cases m with
   | none =>
     cases x with
     | nil => rfl
     | cons c r =>
-      have : c ≠ '!' := by simpa using h
+      have : c ≠ '!' := by simpa [MarkerHead] using h
       simp [Marker.text, doxyFlag, this, Marker.flag]
   | fwd =>
     cases x with
     | nil => simp [Marker.text, doxyFlag, Marker.flag]
     | cons c r =>
-      have : c ≠ '<' := by simpa using h
+      have : c ≠ '<' := by simpa [MarkerHead] using h
       simp [Marker.text, doxyFlag, this, Marker.flag]
   | back => simp [Marker.text, doxyFlag, Marker.flag]
 
